@@ -170,12 +170,15 @@ def castNode (lhsType : TyId) (rhs : Node) : Outcome (Option Node × List String
     | .panic s => .panic s
   else .ok (none, [])
 
-/-- `isStructFieldAccessible` -/
+/-- `isStructFieldAccessible`: the rule of the language, as `types.LookupFieldOrMethod` from the
+generated package applies it — a member is visible if it is exported or declared in that package,
+whichever type it is reached through; the blank field never -/
 def accessible (structNode : Node) (leaf : String) : Bool :=
   let env := ctx.env
   let st := env.derefPtr (structNode.exprType env)
   if !env.isStructType st then false else
-  if env.isNamedType st then !env.isExternalPkg (env.ty st).pkgPath || isExportedName leaf else true
+  if leaf == "_" then false else
+  env.visibleMember st leaf
 
 /-- the common walk of `resolveExpr`/`resolveTemplatedExpr` over path segments -/
 def walkPath : List String → Node → TyId → Option Node
